@@ -135,9 +135,42 @@ func (c *Ctx) corpusC03() {
 	c.emitOp03(r, m3)
 }
 
+// branchingHistories03: every result keeps its snapshot from creation time; after later derivations from the same base the
+// earlier results are read again and must still be the snapshot (same_mesh), still satisfy their contract (append_spec
+// against the inputs' snapshots), and operations on them must agree with the model run on the SNAPSHOT.
+func (c *Ctx) branchingHistories03(n int) {
+	for i := 0; i < n; i++ {
+		c.guardSeq("c03.holds.harness_ok", func() {
+			b := c.genBranchCase()
+			c.Emit("c03.op.append", b.baseS+" "+b.pS, b.xSnap)
+			c.Emit("c03.op.append", b.baseS+" "+b.qS, b.ySnap)
+			late := func(tag, snap string, m modeling.Mesh) {
+				c.Note("branch:reread:" + tag)
+				c.Emit("c03.holds.same_mesh", snap+" "+guardMesh(func() string { return meshStr(m) }), "true")
+			}
+			late("x-after-y", b.xSnap, b.x)
+			late("base-after-y", b.baseS, b.base)
+			c.Emit("c03.holds.append_spec", b.baseS+" "+b.pS+" "+guardMesh(func() string { return meshStr(b.x) }), "true")
+			c.Emit("c03.holds.append_spec", b.baseS+" "+b.qS+" "+guardMesh(func() string { return meshStr(b.y) }), "true")
+			z := b.base.Append(b.x)
+			c.Emit("c03.op.append", b.baseS+" "+b.xSnap, guardMesh(func() string { return meshStr(z) }))
+			late("x-after-z", b.xSnap, b.x)
+			late("y-after-z", b.ySnap, b.y)
+			// operations on the earlier result: the request carries the SNAPSHOT, the implementation runs on the live value
+			for _, name := range []string{"split", "removeunref", "unweld", "flip"} {
+				r := c.applyOp(name, b.x)
+				r.args = strings.Replace(r.args, meshStr(b.x), b.xSnap, 1)
+				c.Emit("c03.op."+r.name, r.args, r.answer(meshStr))
+			}
+		})
+	}
+}
+
 func runC03(c *Ctx) {
 	log.SetOutput(io.Discard)
 	c.corpusC03()
+	c.emptyAppends(func(r opRun, recv modeling.Mesh) { c.emitOp03(r, recv) })
+	c.branchingHistories03(10 + c.N/8)
 	all := append(append([]string{}, layoutOps...), transformOps...)
 	for s := 0; s < c.N; s++ {
 		c.guardSeq("c03.holds.harness_ok", func() { c.seq03(all) })
